@@ -304,6 +304,23 @@ theorem prev_node_is_self (known : List Nat) (node : Bytes) (acc : Bundle) (firs
   rw [ha] at this
   exact Lemmas.prevOk_replace_elim node _ a _ this
 
+/-- **Block numbers stay pairwise different** (the structural part of "parses as a valid bundle"
+that forwarding could break: the appended previous-node block gets a number no other block uses). -/
+theorem sent_block_numbers_distinct (known : List Nat) (node : Bytes) (acc : Bundle) (first : Nat × Nat)
+    (evs : List (Nat × Nat)) (hn : (acc.blocks.map (·.num)).Nodup)
+    (n : Nat) (s : Bundle) (h : (run Cfg.fixed known node acc first evs).1[n]? = some (some s)) :
+    (s.blocks.map (·.num)).Nodup := by
+  obtain ⟨P, el, now, hP, _, ht⟩ := Lemmas.run_spec known node acc first evs n s h
+  exact Lemmas.transform_nodup _ node P el now s ht (Lemmas.processed_nodup known acc P hP hn)
+
+/-- **The in-memory bundle is handed back as received**: after the sends `forward` decrements the
+hop count again, so the shared `*HopCountBlock` shows the received count (not observable on the
+wire — every retry reloads the stored bytes — but on the caller's bundle object). -/
+theorem hop_reset_restores (node : Bytes) (b : Bundle) (el now : Nat) (s : Bundle) (l c : UInt8)
+    (h : transform Cfg.fixed node b el now = .ok s) (h1 : (b.blocks.filter isHop).length ≤ 1)
+    (hf : firstHop b.blocks = some (l, c)) : firstHop (afterSend s).blocks = some (l, c) :=
+  Lemmas.afterSend_restores node b el now s l c h h1 hf
+
 /-- **Expired ⇒ never transmitted**: in a run at clock `now` after residence `el`, a bundle whose
 lifetime has run out — by creation time, or by age (received age + residence) when the creation
 time is zero — is not offered to any convergence sender. -/
